@@ -193,14 +193,24 @@ def run_tag(prog, tier, repo):
                         t = bl2.term
                         if t[0] == 'switch' and t[1][0] in ('c', 'm'):
                             sd = single_def(b, t[1][1].local)
-                            if sd and sd[1] != 'term' and sd[2][0] == 'bin' and sd[2][1] in ('Le', 'Lt'):
-                                x, y = sd[2][2], sd[2][3]
+                            if sd and sd[1] != 'term' and sd[2][0] == 'bin' and sd[2][1] in ('Le', 'Lt', 'Gt', 'Ge'):
+                                x, y, op_ = sd[2][2], sd[2][3], sd[2][1]
+                                if x[0] == 'k' and y[0] in ('c', 'm'):      # `CAP >= size` is `size <= CAP`
+                                    x, y = y, x
+                                    op_ = {'Le': 'Ge', 'Lt': 'Gt', 'Ge': 'Le', 'Gt': 'Lt'}[op_]
                                 if x[0] in ('c', 'm') and root_local(b, x[1].local)[0] == r and y[0] == 'k' \
                                         and y[1].i is not None:
-                                    bound = y[1].i if sd[2][1] == 'Le' else y[1].i - 1
-                                    if bound <= cap:
-                                        edges.append((bj, t[3]))
-                                        edges += [(bj, tg) for v, tg in t[2] if v != 0]
+                                    true_e = [(bj, t[3])] + [(bj, tg) for v, tg in t[2] if v != 0]
+                                    false_e = [(bj, tg) for v, tg in t[2] if v == 0]
+                                    if op_ in ('Le', 'Lt'):
+                                        bound = y[1].i if op_ == 'Le' else y[1].i - 1
+                                        if bound <= cap:
+                                            edges += true_e
+                                    else:
+                                        # `size > c` false  =>  size <= c ;  `size >= c` false  =>  size <= c - 1
+                                        bound = y[1].i if op_ == 'Gt' else y[1].i - 1
+                                        if bound <= cap:
+                                            edges += false_e
                     if edges and cfg.edges_dominate(edges, bi):
                         res.ok(key, b.loc(st[3]), f'dominated by the true edge of size <= {cap}')
                     else:
@@ -342,6 +352,15 @@ def run_dealloc(prog, tier, repo):
     for bj, bl in enumerate(sweeper.blocks):
         tt = bl.term
         if tt[0] != 'switch' or tt[1][0] not in ('c', 'm'):
+            continue
+        if tt[1][1].proj:
+            # `match slot { Temporary(_, true) => .., Temporary(s, false) => .. }`: the mark bit is switched on in place
+            pl = tt[1][1]
+            r, p = root_local(sweeper, pl.local)
+            allp = p + tuple(e for e in pl.proj if e[0] in ('f', 't', 'v'))
+            fs = [e for e in allp if e[0] == 'f']
+            if fs and fs[-1][1] == slot.id and fs[-1][2] == temp and fs[-1][3] == 1:
+                notmarked_edges += [(bj, tg) for v, tg in tt[2] if v == 0]
             continue
         sd = single_def(sweeper, tt[1][1].local)
         if sd is None or sd[1] == 'term':
@@ -643,7 +662,34 @@ def run_intern(prog, tier, repo):
                             lookups[fns[-1]].append(bj)
                         elif nm.endswith('::insert'):
                             inserts.append(bj)
-            missing = [m for m in maps if not (lookups[m] and cfg.nodes_dominate(lookups[m], bi))]
+            # a combined lookup (`static.get(k)` else `temp.get(k)`) yields one Option and the push sits on its None side: the
+            # paths that built `Some(..)` into that Option are hits and cannot be the ones reaching the push
+            hit_blocks = []
+            from ..cfg import def_sites as _ds
+            for bj, bl in enumerate(b.blocks):
+                tt = bl.term
+                if bl.cleanup or tt[0] != 'switch' or tt[1][0] not in ('c', 'm'):
+                    continue
+                sdd = single_def(b, tt[1][1].local)
+                if not (sdd and sdd[1] != 'term' and sdd[2][0] == 'disc' and not sdd[2][1].proj):
+                    continue
+                none_edges = [(bj, tg) for v, tg in tt[2] if v == 0]
+                if not none_edges or not cfg.edges_dominate(none_edges, bi):
+                    continue
+                seenl, work = set(), [sdd[2][1].local]
+                while work:
+                    l_ = work.pop()
+                    if l_ in seenl:
+                        continue
+                    seenl.add(l_)
+                    for d in _ds(b).get(l_, []):
+                        if b.blocks[d[0]].cleanup or d[1] == 'term':
+                            continue
+                        if d[2][0] == 'agg' and d[2][1][0] == 'adt' and d[2][1][3] == 'Some':
+                            hit_blocks.append(d[0])
+                        elif d[2][0] == 'use' and d[2][1][0] in ('c', 'm') and not d[2][1][1].proj:
+                            work.append(d[2][1][1].local)
+            missing = [m for m in maps if not (lookups[m] and cfg.nodes_dominate(lookups[m] + hit_blocks, bi))]
             if missing:
                 res.violation(key, b.loc(t[7]), f'{b.name} pushes a new string slot without first looking the text up in '
                               f'{missing}: the same text can get two different handles')
